@@ -193,6 +193,32 @@ func (c13) Run(c *fw.Case) {
 	forOpts := &jsonschema.ForOptions{TypeSchemas: map[reflect.Type]*jsonschema.Schema{reflect.TypeFor[c13Custom](): custom}, IgnoreInvalidTypes: true}
 	types := []reflect.Type{reflect.TypeFor[c13A](), reflect.TypeFor[c13B](), reflect.TypeFor[c13C](), reflect.TypeFor[[]map[string]c13A](), reflect.TypeFor[*c13C]()}
 
+	// Schema values built or edited in Go (shared, read-only): orders that list every property, a subset, absent names
+	// between and AFTER the present ones (For output with a property deleted afterwards), one sub-schema object used twice
+	var goBuilt []*jsonschema.Schema
+	if fs, err := jsonschema.ForType(reflect.TypeFor[c13A](), nil); err == nil {
+		goBuilt = append(goBuilt, fs.CloneSchemas())
+		del := fs.CloneSchemas()
+		if len(del.PropertyOrder) > 0 {
+			last := del.PropertyOrder[len(del.PropertyOrder)-1]
+			delete(del.Properties, last)
+			for i, q := range del.Required {
+				if q == last {
+					del.Required = append(del.Required[:i:i], del.Required[i+1:]...)
+					break
+				}
+			}
+		}
+		goBuilt = append(goBuilt, del)
+	}
+	shared := &jsonschema.Schema{Type: "object", Properties: map[string]*jsonschema.Schema{"zip": {Type: "string"}, "city": {Type: "string"}}, PropertyOrder: []string{"zip", "city"}}
+	goBuilt = append(goBuilt,
+		&jsonschema.Schema{Properties: map[string]*jsonschema.Schema{"b": {Type: "integer"}, "a": {Type: "string"}, "c": {}}, PropertyOrder: []string{"c", "a"}},
+		&jsonschema.Schema{Properties: map[string]*jsonschema.Schema{"b": {Type: "integer"}, "a": {Type: "string"}}, PropertyOrder: []string{"x1", "b", "x2", "a", "x3", "x4"}},
+		&jsonschema.Schema{Properties: map[string]*jsonschema.Schema{"billing": shared, "note": {Type: "string"}, "shipping": shared}, PropertyOrder: []string{"billing", "note", "shipping", "gone"}},
+		&jsonschema.Schema{Items: &jsonschema.Schema{Properties: map[string]*jsonschema.Schema{"k": {Const: jsonschema.Ptr[any]("v")}}, PropertyOrder: []string{"k", "k2"}}, Properties: map[string]*jsonschema.Schema{}, PropertyOrder: []string{"none"}},
+	)
+
 	// --- the call list: a pure function of the seed ---
 	var inside, maxInside atomic.Int64
 	enter := func() {
@@ -306,7 +332,13 @@ func (c13) Run(c *fw.Case) {
 				return digestBytes(json.Marshal(s))
 			})
 		case w == 7 || w == 8 || (mix == 3): // W4: Marshal / CloneSchemas / Resolve / Validate on one shared tree
-			switch r.IntN(4) {
+			switch r.IntN(6) {
+			case 4:
+				gs := gen.Pick(r, goBuilt)
+				add("W4-marshal-go", func() string { return digestBytes(json.Marshal(gs)) })
+			case 5:
+				gs := gen.Pick(r, goBuilt)
+				add("W4-marshal-method", func() string { return digestBytes(gs.MarshalJSON()) })
 			case 0:
 				add("W4-marshal", func() string { return digestBytes(json.Marshal(&rootS)) })
 			case 1:
